@@ -53,7 +53,9 @@ VALUES = {
           ("underscored", lambda p: p.Filter.model_validate({"_id": "7", "_Rank": 3}), {"_id": "7", "_Rank": 3}),
           ("underscored_by_name", lambda p: p.Filter(**{[n for n, f in p.Filter.model_fields.items() if (f.alias or n) == "_id"][0]: "8"}), {"_id": "8"})],
     "e": [("m", lambda p: p.Color.GREEN, "GREEN"), ("kw", lambda p: getattr(p.Color, "in_"), "in")],
-    "fs": [("l0", lambda p: [], []), ("l1", lambda p: [p.Filter(a=2)], [{"a": 2}])],
+    "fs": [("l0", lambda p: [], []), ("l1", lambda p: [p.Filter(a=2)], [{"a": 2}]),
+           ("renamed", lambda p: [p.Filter.model_validate({"camelCase": "z", "in": 1, "_id": "5"}), p.Filter(b=[p.Filter.model_validate({"in": 2})])],
+            [{"camelCase": "z", "in": 1, "_id": "5"}, {"b": [{"in": 2}]}])],
     "camelCase": [("i", lambda p: 1, 1)],
     "in": [("s", lambda p: "k", "k")],
     "_under": [("i", lambda p: 2, 2)],
@@ -68,7 +70,7 @@ VALUES = {
     "_response": [("s", lambda p: "r", "r")],
     "DATA": [("i", lambda p: 6, 6)],
     "operationName": [("s", lambda p: "other", "other")],
-    "mix": [("null_first", lambda p: [None, p.Filter(a=2)], [None, {"a": 2}]), ("model_last", lambda p: [p.Filter(), None, p.Filter(c=None)], [{}, None, {"c": None}])],
+    "mix": [("renamed_after_null", lambda p: [None, p.Filter.model_validate({"camelCase": "q", "_Rank": 2})], [None, {"camelCase": "q", "_Rank": 2}]), ("null_first", lambda p: [None, p.Filter(a=2)], [None, {"a": 2}]), ("model_last", lambda p: [p.Filter(), None, p.Filter(c=None)], [{}, None, {"c": None}])],
     "grid": [("nested", lambda p: [[p.Filter(a=1)], None, [p.Filter(a=2), p.Filter()]], [[{"a": 1}], None, [{"a": 2}, {}]]), ("empty_inner", lambda p: [[], [p.Filter(a=3)]], [[], [{"a": 3}]])],
 }
 
